@@ -5,7 +5,7 @@ of LaTeXRenderer with one symbolic attribute at a time; L3 whole pipeline on tin
 under the LaTeX token set (math spans set aside by the property: '$' is excluded there).
 """
 from vfy.lemma import lemma, P
-from vfy.lemmas.common import cp_ok, cp_in, S, all_ok, all_in, ks, fixed, by, ALPH14
+from vfy.lemmas.common import cp_ok, cp_md, cp_in, S, all_ok, all_in, ks, fixed, by, ALPH14
 from vfy.plug.stubs import install_quote
 from vfy.lemmas.c08 import mk, raw, holes, hole
 from mistletoe.latex_renderer import LaTeXRenderer
@@ -236,7 +236,7 @@ def excl_l2(holename, k, c1, c2, c3):
     return holename in ('src', 'language') and k > 0
 
 
-@lemma('L2.inline', 'C17', quick=holes(['target', 'text', 'autolink'], 1) + [{'hole': 'target', 'k': 2}, {'hole': 'src', 'k': 0}], thorough=holes(['target', 'text', 'autolink'], 3) + [{'hole': 'src', 'k': 0}],
+@lemma('L2.inline', 'C17', quick=holes(['target', 'text', 'autolink'], 2) + [{'hole': 'src', 'k': 0}], thorough=holes(['target', 'text', 'autolink'], 3) + [{'hole': 'src', 'k': 0}],
        timeout=400, stubs=['urllib.parse.quote -> contract stub', 'tokens built directly'],
        canary=[{'hole': 'src', 'k': 1, 'noexcl': True}],
        covers=['latex_renderer.py:LaTeXRenderer.render_link', 'latex_renderer.py:LaTeXRenderer.render_image',
@@ -265,7 +265,7 @@ def l2_inline(c1: int, c2: int, c3: int, soft: bool) -> bool:
     return True
 
 
-@lemma('L2.code', 'C17', quick=holes(['content'], 1) + [{'hole': 'language', 'k': 0}], thorough=holes(['content'], 3) + [{'hole': 'language', 'k': 0}], timeout=400,
+@lemma('L2.code', 'C17', quick=holes(['content'], 2) + [{'hole': 'language', 'k': 0}], thorough=holes(['content'], 3) + [{'hole': 'language', 'k': 0}], timeout=400,
        canary=[{'hole': 'language', 'k': 1, 'noexcl': True}],
        stubs=['tokens built directly'],
        covers=['latex_renderer.py:LaTeXRenderer.render_inline_code', 'latex_renderer.py:LaTeXRenderer.render_block_code'])
@@ -381,3 +381,72 @@ def witness_code_language():
     import mistletoe
     out = mistletoe.markdown('```a]{\nx\n```\n', LaTeXRenderer)
     return ('[language=a]{]' in out), 'markdown(%r, LaTeXRenderer) = %r' % ('```a]{\\nx\\n```', out)
+
+
+# ---------------------------------------------------------------------------------------- L4
+# the LaTeX renderer on REAL tokens with one symbolic attribute (see C01-T4)
+
+L4_HOLES = ['text', 'heading-text', 'item-text', 'cell-text', 'quote-text', 'emphasis-text', 'fence-content', 'indented-content', 'code-span',
+            'link-target', 'link-title', 'image-title', 'autolink']      # Math content is passed through verbatim by design: the oracle has no math region
+
+
+def l4_deliverable(c1, c2, c3):
+    from vfy.lemmas.c01 import T4_HOLES
+    return T4_HOLES[P('hole')][3](S(P('k'), c1, c2, c3))
+
+
+def l4_replay(c1, c2, c3):
+    from mistletoe import Document
+    from mistletoe.latex_renderer import LaTeXRenderer
+    from vfy.lemmas.c01 import T4_HOLES
+    w = S(P('k'), c1, c2, c3)
+    skeleton, path, setter, deliverable, texts = T4_HOLES[P('hole')]
+    if not deliverable(w):
+        return False, 'pre-condition false for %r' % w
+    seen = []
+    for text in texts(w):
+        try:
+            with LaTeXRenderer() as r:
+                out = r.render(Document(text))
+        except RuntimeError as e:
+            if 'Unable to find delimiter' in str(e):
+                continue
+            raise
+        if not balanced(out):
+            return True, 'LaTeXRenderer().render(Document(%r)) = %r: structure broken' % (text, out)
+        seen.append((text, out))
+    return False, 'no text delivering %r breaks the structure: %r' % (w, seen)
+
+
+@lemma('L4.render-attrs', 'C17', quick=[{'hole': h, 'k': 2} for h in L4_HOLES], thorough=[{'hole': h, 'k': k} for h in L4_HOLES for k in (0, 1, 2)] + [{'hole': h, 'k': 3, 'timeout': 3000} for h in L4_HOLES],
+       timeout=600, per_path=60, replay=l4_replay,
+       stubs=['urllib.parse.quote -> contract stub', 'concrete skeleton parsed natively, one attribute replaced by the symbolic string'],
+       covers=['latex_renderer.py:LaTeXRenderer.render_document', 'latex_renderer.py:LaTeXRenderer.render_raw_text', 'latex_renderer.py:LaTeXRenderer.render_table'],
+       note='every string attribute LaTeXRenderer reads (image source and fence language are recorded findings and left out) takes any k-character value the parser can deliver: '
+            'groups and environments balanced, no unescaped special outside verbatim / URL regions; counterexamples replayed through Document(text) only')
+def l4_render_attrs(c1: int, c2: int, c3: int) -> bool:
+    """
+    pre: all_ok(cp_md, P('k'), c1, c2, c3) and l4_deliverable(c1, c2, c3)
+    post: _
+    """
+    from mistletoe import Document
+    from mistletoe.latex_renderer import LaTeXRenderer
+    from vfy.lemma import untraced
+    from vfy.lemmas.c01 import T4_HOLES
+    install_quote()
+    w = S(P('k'), c1, c2, c3)
+    skeleton, path, setter, deliverable, texts = T4_HOLES[P('hole')]
+    with LaTeXRenderer() as r:
+        with untraced():
+            doc = Document(skeleton)
+        t = doc
+        for i in path:
+            t = t.children[i]
+        setter(t, w)
+        try:
+            out = r.render(doc)
+        except RuntimeError as e:
+            if 'Unable to find delimiter' in str(e):
+                return True
+            raise
+    return balanced(out)
